@@ -41,6 +41,11 @@ type identityCase struct {
 	Perms  []uint64    `json:"perms"`
 	Other  []gen.Label `json:"other"` // an unrelated stream sharing a body with S
 	Styles []uint16    `json:"styles"`
+	// TTLValue != "": S is also pushed with the special label __ttl_days__=TTLValue at
+	// position TTLPos (0 first, 1 middle, 2 last), with CtxTTL as the request's TTL_DAYS.
+	TTLValue string `json:"ttl_value,omitempty"`
+	TTLPos   int    `json:"ttl_pos,omitempty"`
+	CtxTTL   uint16 `json:"ctx_ttl,omitempty"`
 }
 
 var zones = []*time.Location{time.UTC, time.FixedZone("UTC-10", -10*3600), time.FixedZone("UTC+13", 13*3600)}
@@ -65,6 +70,13 @@ func genIdentity(rt *rapid.T) identityCase {
 	c.Perms = rapid.SliceOfN(rapid.Uint64(), 2, 4).Draw(rt, "perms")
 	c.Other = gen.LabelSet(rt, gen.LabelOpt{Min: 1, Max: 3, Names: gen.NamesGoIdent, Val: gen.StrOpt{UTF8Only: true}})
 	c.Styles = rapid.SliceOfN(rapid.Uint16(), 4, 4).Draw(rt, "styles")
+	if rapid.IntRange(0, 2).Draw(rt, "ttl") == 0 {
+		c.TTLValue = gen.DrawTTLValue(rt)
+		c.TTLPos = rapid.IntRange(0, 2).Draw(rt, "ttl-pos")
+		if rapid.IntRange(0, 2).Draw(rt, "ttl-ctx") == 0 {
+			c.CtxTTL = uint16(rapid.SampledFrom([]int{1, 14, 90}).Draw(rt, "ttl-ctx-days"))
+		}
+	}
 	return c
 }
 
@@ -255,6 +267,12 @@ func predIdentity(c identityCase, o *evid.Obs) error {
 		o.Tag("json-only")
 	}
 
+	if c.TTLValue != "" {
+		if err := checkTTLLabel(c, S, fp0, utf, o, &known); err != nil {
+			return err
+		}
+	}
+
 	// ---- neighbours: different sanitised sets must get different fingerprints
 	nb := gen.Neighbours(S)
 	if len(nb) > 12 {
@@ -323,4 +341,97 @@ func predIdentity(c identityCase, o *evid.Obs) error {
 // AddIdentity registers sub-check 1 of C04.
 func AddIdentity(r *evid.Run) {
 	evid.Add(r, evid.Prop[identityCase]{Name: "identity", Quick: 1500, Thorough: 12000, Gen: genIdentity, Pred: predIdentity})
+}
+
+// checkTTLLabel: S pushed with the special label __ttl_days__ (gen/ttl.go) through the two
+// decoders' shapes that hand one stream to the builder more than once - a Loki JSON body
+// that repeats the stream, and a remote-write series of 1 002 points, which the decoder
+// flushes in two pieces from one label buffer. Without a TTL in the request context the
+// label is not part of the series: one fingerprint, equal to that of S; the document
+// decodes to S (no duplicate keys); every row carries the TTL parsed from the label (0 for
+// an unparsable value). With a TTL in the context qryn leaves the label in the set (it is
+// then an ordinary label) and every row carries the context's TTL.
+func checkTTLLabel(c identityCase, S []gen.Label, fp0 uint64, utf bool, o *evid.Obs, known *bool) error {
+	pos := []int{0, len(S) / 2, len(S)}[((c.TTLPos%3)+3)%3]
+	ST := gen.InsertTTLLabel(S, pos, c.TTLValue, 0, 0)
+	o.Tag("ttl-label", fmt.Sprintf("ttl-label:pos=%d", ((c.TTLPos%3)+3)%3))
+	if c.CtxTTL != 0 {
+		o.Tag("ttl-label+ctx-ttl")
+	}
+	if gen.TTLOf(c.TTLValue) == 0 {
+		o.Tag("ttl-label:invalid-value")
+	}
+	type ttlPush struct {
+		what  string
+		proto gen.Proto
+		body  gen.Body
+	}
+	pushes := []ttlPush{{"loki-json v1, stream with __ttl_days__ repeated in one body", gen.LokiJSON, gen.Body{Sets: [][]gen.Label{ST}, Chunks: []gen.Chunk{
+		{Set: 0, Perm: 0, Entries: []gen.Entry{entry(gen.KindLog, 400, 0), entry(gen.KindLog, 401, 0)}},
+		{Set: 0, Perm: 0, Entries: []gen.Entry{entry(gen.KindLog, 402, 0)}},
+	}}}}
+	if utf {
+		pushes = append(pushes, ttlPush{"remote-write, series with __ttl_days__ flushed in two pieces (1002 points)", gen.PromRW, gen.Body{Sets: [][]gen.Label{ST}, Chunks: []gen.Chunk{
+			{Set: 0, Perm: 0, Entries: []gen.Entry{entry(gen.KindMetric, 403, 0)}, Bulk: 1001, BulkTs: ts0 + 1e9, BulkStep: 1e6, BulkKind: gen.KindMetric},
+		}}})
+		o.Tag("ttl-label:rw-flushed-in-pieces")
+	}
+	var fpT uint64
+	for i, p := range pushes {
+		c03.Setup(c.FPType)
+		res := c03.ParseBodyTTL(p.proto, p.body, false, c.CtxTTL)
+		if res.Err != nil {
+			return fmt.Errorf("%s: body rejected: %v", p.what, res.Err)
+		}
+		if res.Shape != "" {
+			return fmt.Errorf("%s: %s", p.what, res.Shape)
+		}
+		want, ttl := gen.ExpectedStored(p.proto, ST, c.CtxTTL)
+		if n := gen.Points(p.body.Expand()); len(res.Samples) != n {
+			return fmt.Errorf("%s: %d entries submitted, %d rows stored", p.what, n, len(res.Samples))
+		}
+		fp := res.Samples[0].FP
+		for _, r := range res.Samples {
+			if r.FP != fp {
+				return fmt.Errorf("%s: rows of one stream carry fingerprints %d and %d (row ts=%d)", p.what, fp, r.FP, r.Ts)
+			}
+			if r.TTL != ttl {
+				return fmt.Errorf("%s: row ts=%d carries TTL %d, expected %d (label value %q, context TTL %d)", p.what, r.Ts, r.TTL, ttl, c.TTLValue, c.CtxTTL)
+			}
+		}
+		if len(res.Series) == 0 {
+			return fmt.Errorf("%s: no series row", p.what)
+		}
+		for _, sr := range res.Series {
+			if sr.FP != fp {
+				return fmt.Errorf("%s: series row with fingerprint %d, the sample rows carry %d", p.what, sr.FP, fp)
+			}
+			if sr.TTL != ttl {
+				return fmt.Errorf("%s: series row carries TTL %d, expected %d", p.what, sr.TTL, ttl)
+			}
+			if !gen.DocRepresentable(want) && !o.Witness {
+				if !*known {
+					*known = true
+					o.Known(c03.FindingDocNotJSON)
+				}
+				continue
+			}
+			got, err := gen.DecodeLabelDoc(sr.Labels)
+			if err != nil {
+				return fmt.Errorf("%s: %v", p.what, err)
+			}
+			if gen.CanonKey(got) != gen.CanonKey(want) {
+				return fmt.Errorf("%s: label document %q decodes to %s, the stored label set should be %s", p.what, sr.Labels, labelsStr(got), labelsStr(want))
+			}
+		}
+		if c.CtxTTL == 0 && fp != fp0 {
+			return fmt.Errorf("%s: fingerprint %d, but %d for the same label set %s pushed without __ttl_days__", p.what, fp, fp0, labelsStr(gen.Sanitized(S)))
+		}
+		if i == 0 {
+			fpT = fp
+		} else if fp != fpT {
+			return fmt.Errorf("label set %s: fingerprint %d through %q but %d through %q", labelsStr(want), fpT, pushes[0].what, fp, p.what)
+		}
+	}
+	return nil
 }
